@@ -155,14 +155,14 @@ def partitions(tier, seed):
         else:
             strlen = 3 if nstr <= 1 else 2
             if has_table and nstr >= 2:
-                parts.append(_part(m, strlen, 900, '_a', with_table=False,
+                parts.append(_part(m, strlen, 480, '_a', with_table=False,
                                    note='(A) all args symbolic (strings <= %d code points), table None'
                                         % strlen))
-                parts.append(_part(m, 1, 900, '_full',
+                parts.append(_part(m, 1, 480, '_full',
                                    note='full product, strings <= 1 code point, table in '
                                         '{None, {}, {k: n}}'))
             else:
-                parts.append(_part(m, strlen, 900))
+                parts.append(_part(m, strlen, 480))
     parts += _lenprefix_parts(tier)
     # vacuity twin: same harness with the assertion negated must be refuted
     m = spec.BY_NAME['Basic.Nack']
